@@ -5,7 +5,7 @@ instance, i.e. the call-site precondition of LogicSim.c_prop.  Bounded evidence 
 import numpy as np
 
 from spec import evaln, algebra as A, gates
-from vk.common import BoundedPart
+from vk.common import sseed,  BoundedPart
 from . import gen_circuits as G
 
 
@@ -184,7 +184,7 @@ def logic_part(pid, ms, tier, seed, with_cycles=False, options=({},)):
         desc = G.describe(c)
         for m in ms:
             for opts in options:
-                rng = random.Random(hash((seed, str(sig), m)) & 0xffffffff)
+                rng = random.Random(sseed((seed, str(sig), m)) & 0xffffffff)
                 n = rng.choice([1, 2, 3, 5, 7, 8, 9, 13, 16, 17])
                 stim = stimulus(rng, c, m, n)
                 key = f'bounded:{pid}:m={m}' + (':' + ','.join(f'{k}={v}' for k, v in sorted(opts.items())) if opts else '')
